@@ -9,7 +9,9 @@ jobs = int(sys.argv[sys.argv.index("-j") + 1]) if "-j" in sys.argv else 4
 PIDS = ["C%02d" % i for i in range(1, 21)]
 seeds = []
 for d in sorted(os.listdir(root)):
-    for v in ("A", "B"):
+    if not os.path.isdir(os.path.join(root, d)):
+        continue
+    for v in sorted(os.listdir(os.path.join(root, d))):
         p = os.path.join(root, d, v, "patch.diff")
         if os.path.exists(p):
             seeds.append((d, v, p))
@@ -50,4 +52,4 @@ for k, out in table.items():
     if "error" in out:
         print(k, out["error"]); continue
     own = k.split("/")[0]
-    print("%-7s %-4s %-24s %s" % (k, out[own]["rc"], ",".join(p for p in PIDS if p != own and out[p]["rc"] == 1), ",".join(p for p in PIDS if out[p]["rc"] == 2)))
+    print("%-7s %-4s %-24s %s" % (k, out[own]["rc"] if own in out else "-", ",".join(p for p in PIDS if p != own and out[p]["rc"] == 1), ",".join(p for p in PIDS if out[p]["rc"] == 2)))
